@@ -73,6 +73,8 @@ def cases(tier):
     for m in EK.big_models(False, tier):
         for route in ('cls', 'proc', 'cfg', 'potable'):
             out.append(dict(m=m, route=route, spelling='setfl'))
+    for i, m in enumerate(EK.species_layout_models(False)):
+        out.append(dict(m=m, route=('cfg', 'potable')[i % 2], spelling='setfl'))
     for m in EK.api_option_models(False):
         if 'title' in m:
             continue
